@@ -425,6 +425,46 @@ pub fn mutate(t: &Triple, others: &[Triple], rng: &mut Rng, opts: Opts, f: &mut 
                 emit(f, t.alg, &t.msg, &sg, &t.pk, "lmstype-recut", &format!("sig{li}.lmstype"));
             }
         }
+        // type codes of the other registry (NIST SP 800-208 / IANA numbers 5..16 for LM-OTS,
+        // 0x0a..0x18 for LMS) put CONSISTENTLY into the public key and the top-level signature,
+        // with the lengths re-cut to what that registry says for the code (p chains, h path nodes) -
+        // a single changed field is caught by the type comparison, this gets past it
+        {
+            let s0 = &lay.sigs[0];
+            // (code, p) of LMOTS_SHA256_N24_W1..8, LMOTS_SHAKE_N32_W1..8, LMOTS_SHAKE_N24_W1..8
+            let ots_reg: [(u32, usize); 12] = [(5, 200), (6, 101), (7, 51), (8, 26), (9, 265), (10, 133), (11, 67), (12, 34), (13, 200), (14, 101), (15, 51), (16, 26)];
+            for (code, p) in ots_reg {
+                let mut sg = t.sig[..s0.off_otstype].to_vec();
+                sg.extend_from_slice(&code.to_be_bytes());
+                sg.extend_from_slice(&t.sig[s0.off_c..s0.off_c + n]);
+                let have = &t.sig[s0.off_y..s0.off_lmstype];
+                for k in 0..p * n {
+                    sg.push(have[k % have.len()]);
+                }
+                sg.extend_from_slice(&t.sig[s0.off_lmstype..]);
+                let mut k = t.pk.clone();
+                if k.len() >= 12 {
+                    put_u32(&mut k, 8, code);
+                }
+                emit(f, t.alg, &t.msg, &sg, &k, "other-registry-code-in-key-and-signature", "otstype");
+            }
+            // LMS_SHA256_M24_H5..H25 (0x0a..0x0e), LMS_SHAKE_M32 (0x0f..0x13), LMS_SHAKE_M24 (0x14..0x18)
+            for (i, code) in (0x0au32..=0x18).enumerate() {
+                let h = [5usize, 10, 15, 20, 25][i % 5];
+                let mut sg = t.sig[..s0.off_lmstype].to_vec();
+                sg.extend_from_slice(&code.to_be_bytes());
+                let have = &t.sig[s0.off_path..s0.end];
+                for k in 0..h * n {
+                    sg.push(have[k % have.len().max(1)]);
+                }
+                sg.extend_from_slice(&t.sig[s0.end..]);
+                let mut k = t.pk.clone();
+                if k.len() >= 8 {
+                    put_u32(&mut k, 4, code);
+                }
+                emit(f, t.alg, &t.msg, &sg, &k, "other-registry-code-in-key-and-signature", "lmstype");
+            }
+        }
         // level count manipulations
         for nspk in WILD_U32 {
             // (a) header only
